@@ -1232,6 +1232,88 @@ def rule_G3(ctx, rid='G3'):
 
 
 # ---------------------------------------------------------------------------
+# F10 the worker-side likelihood stub is only ever run by pool workers
+# ---------------------------------------------------------------------------
+
+def rule_F10(ctx, rid='F10'):
+    ctx.rule(rid, 'worker stub: a function that reads a module global which only a pool '
+             'initializer defines (likelihood_worker / LIKELIHOOD) can only work inside pool '
+             'workers; wherever the sampler installs it as self.likelihood, every call of '
+             'self.likelihood made in the parent process (directly or through the builtin map) '
+             'sits on a branch whose conditions contradict those of the installation')
+    from .cfg import cfg_of
+    prog = ctx.program
+    # functions that read a global only assigned under a `global` statement elsewhere
+    worker_only = set()
+    for m in prog.modules.values():
+        declared = {}
+        for f in m.functions.values():
+            for g in ast.walk(f.node):
+                if isinstance(g, ast.Global):
+                    for nm in g.names:
+                        declared.setdefault(nm, set()).add(f.name)
+        top = {t.id for st in m.tree.body if isinstance(st, ast.Assign) for t in st.targets
+               if isinstance(t, ast.Name)}
+        for f in m.functions.values():
+            for x in ast.walk(f.node):
+                if isinstance(x, ast.Name) and isinstance(x.ctx, ast.Load) and \
+                        x.id in declared and x.id not in top and f.name not in declared[x.id]:
+                    worker_only.add(f.name)
+    ctx.require(worker_only, 'no worker-only function found (expected pool.likelihood_worker)')
+    S = prog.cls('Sampler')
+    installs = []
+    for f in S.methods.values():
+        cfg = cfg_of(f)
+        for nn in cfg.nodes:
+            if nn.kind == 'stmt' and isinstance(nn.ast, ast.Assign) and \
+                    dotted(nn.ast.targets[0]) == '%s.likelihood' % f.self_name and \
+                    isinstance(nn.ast.value, ast.Name) and nn.ast.value.id in worker_only:
+                installs.append((f, cfg, nn))
+    n = 0
+    if not installs:
+        ctx.ob(rid, 'Sampler:worker-stub-not-installed', True, 'nautilus/sampler.py:0',
+               'the sampler never replaces self.likelihood by a worker-only function')
+        return 1
+
+    def flag_facts(cfg, nid):
+        out = {}
+        for atom, tx, tr in cfg.facts(nid):
+            t = tx.replace('self.', '')
+            out[t] = tr
+        return out
+    # the installation implies a likelihood pool: it sits next to `pool[i] = NautilusPool(..)`
+    inst_facts = []
+    for f, cfg, nn in installs:
+        ff = flag_facts(cfg, nn.id)
+        ff['pool_l is None'] = False
+        inst_facts.append(ff)
+    for f in S.methods.values():
+        cfg = cfg_of(f)
+        for c in walk_no_nested(f.node):
+            if not isinstance(c, ast.Call) or not cfg.has(c):
+                continue
+            direct = dotted(c.func) == '%s.likelihood' % f.self_name
+            builtin_map = isinstance(c.func, ast.Name) and c.func.id == 'map' and c.args and \
+                dotted(c.args[0]) == '%s.likelihood' % f.self_name
+            if not (direct or builtin_map):
+                continue
+            cf = flag_facts(cfg, cfg.node_of(c).id)
+            ok = all(any(k in cf and cf[k] != v for k, v in ff.items()) for ff in inst_facts)
+            n += 1
+            tag = ','.join(('' if v else 'not ') + k for k, v in sorted(cf.items())) or 'always'
+            ctx.ob(rid, '%s:parent-call-excludes-stub(%s)' % (f.qualname, tag), ok,
+                   f.where(c),
+                   'this in-process call cannot meet the worker stub (branch conditions %s '
+                   'contradict the installation)' % sorted(cf.items()) if ok else
+                   '`%s` runs in the parent process on a branch (%s) that is compatible with the '
+                   'branch on which self.likelihood was replaced by the worker-only `%s` (%s): '
+                   'the stub reads a global that exists only in pool workers -> NameError'
+                   % (unparse(c)[:40], sorted(cf.items()), sorted(worker_only)[0],
+                      sorted(inst_facts[0].items())))
+    return n
+
+
+# ---------------------------------------------------------------------------
 # F5 ordered map
 # ---------------------------------------------------------------------------
 
